@@ -397,8 +397,27 @@ fn rand_str(rng: &mut Rng, chars: &[u8], lo: usize, hi: usize) -> String {
     (0..n).map(|_| *rng.pick(chars) as char).collect()
 }
 
-fn rand_aux(rng: &mut Rng, read_groups: &[String]) -> Vec<([u8; 2], Aux)> {
+fn rand_aux(rng: &mut Rng, read_groups: &[String], long: bool) -> Vec<([u8; 2], Aux)> {
     let mut out: Vec<([u8; 2], Aux)> = Vec::new();
+    if long {
+        // always present in the multi-block sets: a long string, and mostly a long array / hex / second string
+        out.push((*b"YZ", Aux::Str(rand_str(rng, STR_CHARS, 100, 400))));
+        if rng.chance(2, 3) {
+            let n = rng.urange(40, 160);
+            out.push((*b"YS", Aux::IntArr('S', (0..n).map(|_| rng.range(0, 65535)).collect())));
+        }
+        if rng.chance(1, 2) {
+            let n = rng.urange(30, 120);
+            out.push((*b"YH", Aux::Hex((0..2 * n).map(|_| *rng.pick(b"0123456789ABCDEF") as char).collect())));
+        }
+        if rng.chance(1, 2) {
+            out.push((*b"YY", Aux::Str(rand_str(rng, STR_CHARS, 60, 250))));
+        }
+        if rng.chance(1, 2) {
+            let n = rng.urange(20, 80);
+            out.push((*b"YF", Aux::FloatArr((0..n).map(|_| rng.range(-4000, 4000) as f32 / 16.0).collect())));
+        }
+    }
     let n = match rng.below(4) {
         0 => 0,
         1 => 1,
@@ -504,12 +523,15 @@ pub struct GenOpts {
     pub placed_unmapped: bool,
     pub max_read: usize,
     pub aux: bool,
+    /// long names, long Z/B aux values, long reads: every kind of value gets a chance to straddle a
+    /// BGZF block boundary of the SAM.gz / BAM targets
+    pub long: bool,
 }
 
 fn rand_record(rng: &mut Rng, idx: usize, refs: &[RefDesc], rgs: &[String], o: &GenOpts) -> Aln {
     // unique within the set (the separator keeps "r52"+"7" apart from "r527"): CRAM attaches records of
     // one name to each other as mates and recomputes their mate fields
-    let name = format!("r{idx}:{}", rand_str(rng, NAME_CHARS, 0, 12));
+    let name = if o.long { format!("r{idx}:{}", rand_str(rng, NAME_CHARS, 40, 230)) } else { format!("r{idx}:{}", rand_str(rng, NAME_CHARS, 0, 12)) };
     let want_mapped = !refs.is_empty() && o.mapped && (!o.unmapped || rng.chance(3, 4));
     let mut flags: u16 = 0;
     let paired = rng.chance(1, 2);
@@ -559,7 +581,7 @@ fn rand_record(rng: &mut Rng, idx: usize, refs: &[RefDesc], rgs: &[String], o: &
     } else {
         flags |= 0x4;
         flags &= !0x2;
-        let n = rng.urange(1, o.max_read);
+        let n = if o.long { rng.urange(o.max_read / 4, o.max_read) } else { rng.urange(1, o.max_read) };
         seq = (0..n).map(|_| rand_base(rng)).collect();
         cigar = Vec::new();
         // CRAM has no mapping quality for unmapped reads (the MQ series exists for mapped reads only):
@@ -600,7 +622,7 @@ fn rand_record(rng: &mut Rng, idx: usize, refs: &[RefDesc], rgs: &[String], o: &
     } else if paired {
         flags |= 0x8;
     }
-    let aux = if o.aux { rand_aux(rng, rgs) } else { Vec::new() };
+    let aux = if o.aux { rand_aux(rng, rgs, o.long) } else { Vec::new() };
     Aln { name, flags, rid, pos, mapq, cigar, mrid, mpos, tlen, seq, qual, aux }
 }
 
@@ -638,6 +660,16 @@ pub const DET_CLASSES: &[&str] = &[
     "multi-reference",
     "unmapped-only",
     "multi-block",
+    "headerless-qname-BAM",
+    "headerless-qname-BAM_0001",
+    "headerless-qname-BAMBI.7",
+    "headerless-qname-BA",
+    "headerless-qname-B",
+    "headerless-qname-BCF",
+    "headerless-qname-BCF_1",
+    "headerless-qname-CRA",
+    "headerless-qname-CRA_M",
+    "headerless-qname-C",
     // minimal set for a shape the random part avoids (read names are generated as r<index>...)
     "witness-headerless-sam-qname-starts-with-CRAM",
     "witness-placed-unmapped-read-overhanging-reference-end",
@@ -651,7 +683,7 @@ pub fn make_set(class: &str, seed: u64) -> ASet {
     let rng = &mut rng;
     let hd = *rng.pick(&[Some("@HD\tVN:1.6\tSO:unsorted"), Some("@HD\tVN:1.6"), Some("@HD\tVN:1.5\tSO:unknown\tGO:none"), None]);
     let rgs: Vec<String> = if rng.bool() { vec!["rg0".into(), "rg1.lane-2".into()] } else { Vec::new() };
-    let o = |mapped, unmapped, max_read| GenOpts { mapped, unmapped, placed_unmapped: true, max_read, aux: true };
+    let o = |mapped, unmapped, max_read| GenOpts { mapped, unmapped, placed_unmapped: true, max_read, aux: true, long: false };
     let (header_text, refs, recs): (String, Vec<RefDesc>, Vec<Aln>) = match class {
         "empty-header-no-records" => (String::new(), Vec::new(), Vec::new()),
         "header-only" => {
@@ -696,22 +728,35 @@ pub fn make_set(class: &str, seed: u64) -> ASet {
             (header_text(&refs, hd, &rgs, rng.bool()), refs, recs)
         }
         // SAM text well above 64 KiB so that the BGZF variants have several blocks
+        // >= 300 KiB of SAM text (>= 5 BGZF blocks in SAM.gz, several in BAM) made of long names, long
+        // SEQ/QUAL, long Z/H/B aux values, so that every kind of value straddles block boundaries
         "multi-block" => {
-            let refs = make_refs(rng, 3, 2000, 5000);
-            let n = rng.urange(500, 800);
-            let recs = (0..n).map(|i| rand_record(rng, i, &refs, &rgs, &o(true, true, 200))).collect();
+            let refs = make_refs(rng, 3, 2500, 5000);
+            let n = rng.urange(260, 340);
+            let lo = GenOpts { mapped: true, unmapped: true, placed_unmapped: true, max_read: 1200, aux: true, long: true };
+            let recs = (0..n).map(|i| rand_record(rng, i, &refs, &rgs, &lo)).collect();
             (header_text(&refs, hd, &rgs, true), refs, recs)
+        }
+        // no header lines; the first read name is (or starts with) a magic number or a prefix of one. None of
+        // them is a magic: BAM needs the byte 0x01 and a CRAM/BCF file definition continues with version
+        // bytes, which cannot occur in a QNAME (CRAM itself: see the witness class below)
+        c if c.starts_with("headerless-qname-") => {
+            let first = c.strip_prefix("headerless-qname-").unwrap();
+            let u = GenOpts { mapped: false, unmapped: true, placed_unmapped: false, max_read: 60, aux: true, long: false };
+            let mut recs: Vec<Aln> = (0..3).map(|i| rand_record(rng, i, &[], &[], &u)).collect();
+            recs[0].name = first.to_string();
+            (String::new(), Vec::new(), recs)
         }
         // no header lines, first (and only) read is named CRAM0: the SAM text starts with the CRAM magic
         "witness-headerless-sam-qname-starts-with-CRAM" => {
-            let mut r = rand_record(rng, 0, &[], &[], &GenOpts { mapped: false, unmapped: true, placed_unmapped: false, max_read: 30, aux: false });
+            let mut r = rand_record(rng, 0, &[], &[], &GenOpts { mapped: false, unmapped: true, placed_unmapped: false, max_read: 30, aux: false, long: false });
             r.name = "CRAM0".into();
             (String::new(), Vec::new(), vec![r])
         }
         // flag 4 with RNAME/POS of the mate, 30 bases starting 10 bases before the end of a 100-base reference
         "witness-placed-unmapped-read-overhanging-reference-end" => {
             let refs = make_refs(rng, 1, 100, 100);
-            let mut r = rand_record(rng, 0, &[], &[], &GenOpts { mapped: false, unmapped: true, placed_unmapped: false, max_read: 30, aux: false });
+            let mut r = rand_record(rng, 0, &[], &[], &GenOpts { mapped: false, unmapped: true, placed_unmapped: false, max_read: 30, aux: false, long: false });
             r.seq = (0..30).map(|_| rand_base(rng)).collect();
             r.qual = vec![30; 30];
             r.rid = Some(0);
